@@ -102,6 +102,15 @@ func subset(univ []uint64, mask int) []uint64 {
 	return s
 }
 
+func contains(l []uint64, x uint64) bool {
+	for _, y := range l {
+		if x == y {
+			return true
+		}
+	}
+	return false
+}
+
 func union(a, b []uint64) []uint64 {
 	m := map[uint64]struct{}{}
 	for _, x := range a {
@@ -161,10 +170,27 @@ func quorumStream(rng *rand.Rand, thorough bool) {
 						votes[id] = d == 1
 					}
 				}
-				if v%5 == 2 {
-					votes[99] = true
-				}
 				emitVote(c0, c1, votes)
+				// a stranger's vote (an id in neither set, e.g. a learner's response) is ignored
+				for _, sv := range []bool{true, false} {
+					w := map[uint64]bool{99: sv}
+					for k, b := range votes {
+						w[k] = b
+					}
+					emitVote(c0, c1, w)
+					if len(u) < n { // ... also one with a small id that is in neither set
+						for _, id := range univ {
+							if _, in := w[id]; !in && !contains(u, id) {
+								w2 := map[uint64]bool{id: sv}
+								for k, b := range votes {
+									w2[k] = b
+								}
+								emitVote(c0, c1, w2)
+								break
+							}
+						}
+					}
+				}
 			}
 		}
 	}
@@ -205,6 +231,10 @@ func quorumStream(rng *rand.Rand, thorough bool) {
 			default:
 				votes[id] = true
 			}
+		}
+		if rng.Intn(3) == 0 {
+			votes[uint64(17+rng.Intn(4))] = rng.Intn(2) == 0
+			acks[uint64(17+rng.Intn(4))] = quorum.Index(rng.Intn(8))
 		}
 		emitCommit(c0, c1, acks)
 		emitVote(c0, c1, votes)
